@@ -209,6 +209,7 @@ def run(tier, seed):
             both += 1
             t = it['task']; nontriv.add(pyspec.canon([t['base'], t['local'], t['remote'], t.get('args'), t.get('strategies')]))
         sig, detail = judge(it, res)
+        if not sig: sig, detail = M.judge_reapply(res)
         if sig == 'excluded':
             excluded[detail] = excluded.get(detail, 0) + 1
         elif sig:
